@@ -9,6 +9,10 @@ Known-finding classes (see Props.v c07_*_refuted; only generated when KNOWN_FIND
 `finding: property=C07 class=<name>` line, so that the unchanged tree exits 0):
   late_panic      a panic raised after the caller has left its select (after cancel / ctx / a delivered
                   reducer value) blocks forever in panicChan.write: goroutine leak or hang
+Classes recognised by classify() but never generated on purpose (they need a rare schedule):
+  send_on_closed  finish() between guardedWriter's check and its send on `output` (stop-early reducer that writes
+                  while a mapper cancels / the context ends): "send on closed channel" re-raised or reducer leaked
+  ctx_select_race context done before the call, but the caller's select takes the closed output
 """
 import os
 
@@ -43,7 +47,8 @@ SEARCH_N = 400
 SHARD = 80
 DRIVER_TIMEOUT = 1500
 COQ_FILES = ["theories/C07/Props.v", "theories/C07/Link.v", "theories/C07/Proofs.v",
-             "theories/C07/ProofsA.v", "theories/C07/ProofsB.v", "theories/C07/ProofsC.v"]
+             "theories/C07/ProofsA.v", "theories/C07/ProofsB.v", "theories/C07/ProofsC.v", "theories/C07/ProofsD.v",
+             "theories/C07/Explore.v", "theories/C07/Tests.v"]
 COQ_TARGETS = ["theories/C07/Props.v", "theories/C07/Link.v", "theories/C07/Exec.v"]
 RULE = ("scripts for MapReduce/MapReduceChan/MapReduceVoid/ForEach/Finish/FinishVoid: 0-20 items (64 in the big "
         "class), workers in {-1,0,1,2,3,4,8,default}, per-item mapper scripts of write/cancel(err|nil)/panic/"
@@ -435,6 +440,9 @@ def classify(case, obs):
     out = obs.get("outcome", {})
     if out.get("kind") == "panic" and out.get("p") == -1:
         return "send_on_closed"          # finish() between guardedWriter's check and its send (Props: c07_send_on_closed_refuted)
+    if (case["ctx"] == "pre" and out.get("kind") in ("nooutput", "nil") and not obs.get("leaked", 0)
+            and not any(a["op"] in ("cancel", "cancelnil", "panic") for it in case["items"] for a in it["acts"])):
+        return "ctx_select_race"         # the caller's select saw ctx.Done and the closed output (c07_ctx_result_refuted)
     rws = sum(1 for e in tr if e[0] == "rw")
     rds = sum(1 for e in tr if e[0] == "rd")
     if bad and rws > rds and other_exit:
